@@ -456,7 +456,7 @@ func checkTextFormats(r *ev.Run) {
 						}
 						sum += tn.Norm() / 2
 					}
-					if msg == "" && math.Abs(sum-area) > 1e-9*(1+area) {
+					if msg == "" && !(math.Abs(sum-area) <= 1e-9*(1+area)) {
 						msg = fmt.Sprintf("triangles cover area %g, the face has area %g", sum, area)
 					}
 					if msg != "" {
